@@ -98,3 +98,25 @@ func LoadX509KeyPair(certFile, keyFile string) (Certificate, error) {
 func X509KeyPair(certPEMBlock, keyPEMBlock []byte) (Certificate, error) {
 	return tls.X509KeyPair(certPEMBlock, keyPEMBlock)
 }
+
+// Dialer mirrors crypto/tls.Dialer on top of snet (a changed tree may hold one).
+type Dialer struct {
+	NetDialer *snet.Dialer
+	Config    *Config
+}
+
+func (d *Dialer) Dial(network, addr string) (net.Conn, error) {
+	nd := d.NetDialer
+	if nd == nil {
+		nd = new(snet.Dialer)
+	}
+	c, err := DialWithDialer(nd, network, addr, d.Config)
+	if err != nil {
+		return nil, err
+	}
+	return c, nil
+}
+
+func (d *Dialer) DialContext(ctx context.Context, network, addr string) (net.Conn, error) {
+	return d.Dial(network, addr)
+}
